@@ -523,12 +523,13 @@ def run_c15_ble(case, R):
     async def main(loop):
         w = BleWorld(loop, k=case.get("k", 0), att_payload=case.get("att", 155))
         w.acc.verify_reply_pieces = case["pieces"]
+        w.acc.response_frag = case.get("rfrag", 512)          # size of the HAP-BLE PDU fragments the pairing TLV travels in, one layer below
         try:
             p = w.pairing
             try:
                 r = await p.get_characteristics([(1, 10)])
             except Exception as e:  # noqa: BLE001
-                R.fail("C15.ble-fragment-reassembly", f"pair-verify replies split into {case['pieces']}-byte FragmentData pieces: {type(e).__name__}: {e}", exc=type(e).__name__)
+                R.fail("C15.ble-fragment-reassembly", f"pair-verify replies split into {case['pieces']}-byte FragmentData pieces (PDU fragments of {case.get('rfrag', 512)}): {type(e).__name__}: {e}", exc=type(e).__name__)
                 return
             if r != {(1, 10): {"value": False}} or w.acc.sessions_established != 1 or w.acc.decrypt_errors:
                 R.fail("C15.ble-fragment-reassembly", f"pieces {case['pieces']}: result {r!r}, sessions {w.acc.sessions_established}")
@@ -538,8 +539,20 @@ def run_c15_ble(case, R):
     vtime.run(main)
 
 
-C15_BLE_LAYERS = [Layer("ble-fragment-reassembly", run_c15_ble, enumerate=lambda tier: ({"pieces": n, "att": a} for n in (4, 5, 7, 13, 31, 32, 33, 64, 100, 140, 141, 200) for a in (23, 155)),
-                        exhaustive=True, space="pair-verify replies (about 140 bytes) cut into FragmentData pieces of 12 sizes (at most 50 pieces, the library's stated limit) x 2 MTUs", min_nontrivial=10)]
+def enum_c15_ble(tier):
+    for n in (4, 5, 7, 13, 31, 32, 33, 64, 100, 140, 141, 200):
+        for a in (23, 155):
+            yield {"pieces": n, "att": a}
+    # unfragmented at the TLV level, but the reply PDU itself arrives in fragments of every size 8..120 (the last one may carry 1 or 2 bytes)
+    for rfrag in range(8, 121):
+        yield {"pieces": None, "att": 155, "rfrag": rfrag}
+    for rfrag in (9, 20, 33, 50):
+        yield {"pieces": 64, "att": 155, "rfrag": rfrag}
+
+
+C15_BLE_LAYERS = [Layer("ble-fragment-reassembly", run_c15_ble, enumerate=enum_c15_ble,
+                        exhaustive=True, space="pair-verify replies (about 140 bytes) cut into FragmentData pieces of 12 sizes (at most 50 pieces, the library's stated limit) x 2 MTUs; "
+                                               "the reply PDU in HAP-BLE fragments of every size 8..120", min_nontrivial=10)]
 
 
 # ---------------------------------------------------------------- C17: PDUs through the API
